@@ -1056,6 +1056,26 @@ pub fn gen_arbitrary_selection(r: &mut Rng, u: &Value, depth: u32) -> Value {
                 }
                 Value::Object(o)
             }
+            Value::Array(a) if r.chance(12) => {
+                // an OBJECT selector on an array claim whose member names are decimal numbers:
+                // valid indices, the length itself (one past the end), beyond it, negative, padded
+                let n = a.len();
+                let mut o = Map::new();
+                for _ in 0..1 + r.below(3) {
+                    let k = match r.below(7) {
+                        0 => n.to_string(),
+                        1 => (n + 1).to_string(),
+                        2 => "0".to_string(),
+                        3 => n.saturating_sub(1).to_string(),
+                        4 => "-1".to_string(),
+                        5 => format!("0{}", n),
+                        _ => "18446744073709551616".to_string(),
+                    };
+                    let v = if r.chance(70) { Value::Bool(true) } else { any(r, d.min(1), names) };
+                    o.insert(k, v);
+                }
+                Value::Object(o)
+            }
             Value::Array(a) => {
                 let mut out: Vec<Value> = a
                     .iter()
